@@ -291,7 +291,7 @@ func init() {
 			{Name: "templates", Quick: sizes(0, 3), Thorough: sizes(0, 4), Run: run(3, []string{""}, true)},
 			{Name: "anchored-patterns", Quick: sizes(1, 1), Thorough: sizes(1, 2), Run: run(3, c17Flags, false, true)},
 			{Name: "invalid-patterns", Quick: []int{1}, ShardDepth: 1, Run: func(c *explore.Chooser, x *explore.Ctx, _ int) {
-				bad := []string{"//", "/(/", "/a**/", "/[/", "/)/", "/a{2,1}/", "/(?P<n/", `/\/`, "/a", "/+/", "/[b-a]/", `/\8/`}
+				bad := []string{"//", "//i", "//m", "//s", "//ims", "/(/", "/a**/", "/[/", "/)/", "/a{2,1}/", "/(?P<n/", `/\/`, "/a", "/+/", "/[b-a]/", `/\8/`}
 				lit := bad[c.Choose(len(bad))]
 				form := c.Choose(3)
 				c.Done()
